@@ -433,9 +433,13 @@ func runExplore(b *built, prop string, p part, tier string, fds []finding, known
 }
 
 func firstPanicLine(s string) string {
-	for _, l := range strings.Split(s, "\n") {
-		if strings.HasPrefix(l, "panic:") || strings.HasPrefix(l, "fatal error:") {
-			return l
+	for _, key := range []string{"panic:", "fatal error:", "EXPLORER STALL"} {
+		if i := strings.Index(s, key); i >= 0 {
+			l := s[i:]
+			if j := strings.IndexByte(l, '\n'); j >= 0 {
+				l = l[:j]
+			}
+			return "host process died: " + l
 		}
 	}
 	if len(s) > 200 {
